@@ -26,7 +26,7 @@ RULE = ('cases: two tables of 0-6 rows with 0-3 key columns and 0-3 other column
         'per column from a small pool {None, 0, 1, 1.0, 2, 1.5, NaN objects of 3 identities, "a", "b", "ab", two datetimes} so that duplicate keys '
         'occur on both sides; lcols/rcols spelled None / name / list / callable (id, isnone, coalesce, const; differently named columns on the two '
         'sides); modes None,"l","r","left","right",0,1 and two callables; x*y and x/y; kinds join, xor, both (join+xor of the same operands, '
-        'x carrying a unique id column); a stream of all-numeric key columns with 1-2 distinct NaN objects among duplicated finite values on both sides; a stream of many-to-many keys x shared non-key columns with pairwise distinct cells x modes r/1/callables; an exhaustive stream of all pairs of one-key tables with <= 2 rows over {None,1,1.0,2,"a"}; a malformed '
+        'x carrying a unique id column); a stream of all-numeric key columns with 1-2 distinct NaN objects among duplicated finite values on both sides; a stream of many-to-many keys x shared non-key columns with pairwise distinct cells x modes r/1/callables; an exhaustive stream of all pairs of one-key tables with <= 2 rows over {None,1,1.0,2,"a"}; a stream (plus ~8% of the random stream and an exhaustive small scope) where BOTH operands are the same object (x.join(x, lcols, rcols) with lcols == rcols and != rcols, x*x, x/x); operands sharing the list object of a key column; every call is made twice on the same operands and must return the same table; a malformed '
         'stream (length mismatch, callable on both sides, missing column). Compared inside Coq: status, sorted column names and the multiset of '
         'rows (numbers in join key columns up to ==, everything else exact incl. int/float), errors by class, Timeout as an outcome. The oracle '
         'recomputes the join / anti-join by nested loops over the rows from the property text, checks termination and that every operand cell is '
@@ -126,7 +126,7 @@ def py_jmode(m):
 def coq_runner(case):
     return {'join': 'run_join', 'xor': 'run_xor', 'both': 'run_both'}[case['kind']]
 def coq_case(case):
-    base = '%s, %s, %s, %s' % (coq_table(case['x']), coq_table(case['y']), coq_spec(case['lcols']), coq_spec(case['rcols']))
+    base = '%s, %s, %s, %s' % (coq_table(case['x']), coq_table(case['x'] if case.get('selfjoin') else case['y']), coq_spec(case['lcols']), coq_spec(case['rcols']))
     if case['kind'] == 'join':
         return '(%s, %s)' % (base, JMODES[case['mode']][1])
     if case['kind'] == 'xor':
@@ -258,10 +258,13 @@ def impl_setup():
     logging.disable(logging.CRITICAL)
     from pyg_base import dictable
 
-def build(t, nans, plain=False):
+def build(t, nans, plain=False, share=None):
     cols = [n for n, _ in t]
     data = {n: [py_cell(c, nans) for c in col] for n, col in t}
     d = {n: list(v) for n, v in data.items()}
+    if share and share[1]:
+        for n in share[1]:                                    # the two operands hold the very same list object for this column
+            d[n] = share[0][n]; data[n] = list(share[0][n])
     return cols, data, (d if plain else dictable(d))
 def snapshot(tb): return [(k, list(v)) for k, v in tb.items()]
 def unchanged(tb, snap):
@@ -305,16 +308,25 @@ def check_xor(case, res, xc, xd, yc, yd, right):
 
 def impl(case):
     nans = {'np': True} if case.get('npfloat') else {}
-    xc, xd, x = build(case['x'], nans); yc, yd, y = build(case['y'], nans, plain=bool(case.get('ydict')))      # ydict: the right operand is a plain dict of lists
+    xc, xd, x = build(case['x'], nans)
+    if case.get('selfjoin'):
+        yc, yd, y = xc, xd, x                                # the SAME object on both sides: x.join(x, ...), x * x, x / x
+    else:
+        yc, yd, y = build(case['y'], nans, plain=bool(case.get('ydict')), share=(x, case.get('sharecols')))      # ydict: the right operand is a plain dict of lists
     sx, sy = snapshot(x), snapshot(y)
     why_invalid = validity(case)
     kind = case['kind']
-    results = []; status = 'ok'
-    try:
+    status = 'ok'
+    def run_calls():
+        out = []
         if kind in ('join', 'both'):
-            results.append(call_join(x, y, case) if kind == 'join' else x.join(y, py_spec(case['lcols']), py_spec(case['rcols']), 'l'))
+            out.append(call_join(x, y, case) if kind == 'join' else x.join(y, py_spec(case['lcols']), py_spec(case['rcols']), 'l'))
         if kind in ('xor', 'both'):
-            results.append(call_xor(x, y, case, case['mode'] if kind == 'xor' else 'default'))
+            out.append(call_xor(x, y, case, case['mode'] if kind == 'xor' else 'default'))
+        return out
+    try:
+        results = run_calls()
+        again = run_calls()                                  # the same calls once more on the same operands: must give the same tables
     except Exception as e:
         status = err_name(e)
         viol = None if why_invalid else '%s raised %s: %s' % (kind, type(e).__name__, str(e)[:120])
@@ -324,13 +336,16 @@ def impl(case):
     viol = None
     if not unchanged(x, sx): viol = 'left operand modified by %s' % kind
     elif not unchanged(y, sy): viol = 'right operand modified by %s' % kind
-    for r in results:
+    for r in results + again:
         if viol is None and not isinstance(r, dictable):
             viol = '%s returned a %s' % (kind, type(r).__name__)
     if viol:
         return {'status': status, 'obs': ['ERR', 'bad'], 'viol': viol}
     li, ri = resolve(xc, yc, case['lcols'], case['rcols'])
     kn = key_names(li, ri) if not why_invalid else []
+    for r1, r2 in zip(results, again):
+        if obs_table(r1, kn) != obs_table(r2, kn):
+            return {'status': status, 'obs': ['ERR', 'unstable'], 'viol': 'the same %s on the same operands gave two different tables: %s then %s' % (kind, obs_table(r1, kn)[1:], obs_table(r2, kn)[1:])}
     if kind == 'join':
         obs = obs_table(results[0], kn)
         if not why_invalid: viol = check_join(case, results[0], xc, xd, yc, yd, case['mode'])
@@ -374,12 +389,19 @@ def shape(case):
     nk = 'auto' if li is None else str(len(li))
     fun = 'f' if any(it[0] == 'fun' for it in (li or []) + (spec_items(case['rcols']) or [])) else ''
     nan = 'nan' if any(c and c[0] == 'nan' for t in (case['x'], case['y']) for _, col in t for c in col) else ''
-    flags = ''.join(f for f, on in (('N', case.get('renamed')), ('D', case.get('ydict')), ('P', case.get('npfloat'))) if on)
+    flags = ''.join(f for f, on in (('N', case.get('renamed')), ('D', case.get('ydict')), ('P', case.get('npfloat')), ('S', case.get('selfjoin')), ('L', case.get('sharecols'))) if on)
     return '%s:%s:k%s%s%s%s%s' % (case['kind'], case.get('stream', '?'), nk, fun, nan, ':op' if case.get('via') == 'op' else '', ':' + flags if flags else '')
 
 def shrink(case):
     if case.get('stream') == 'seed':
         return          # corpus seeds are already minimal: replay them as written
+    if case.get('selfjoin'):
+        t = case['x']; n = len(t[0][1]) if t else 0
+        for i in range(n):
+            x2 = [[nm, col[:i] + col[i + 1:]] for nm, col in t]
+            yield dict(case, x=x2, y=x2)
+        return
+    case = dict(case); case.pop('sharecols', None)      # shrunk operands are rebuilt separately
     for side in ('x', 'y'):
         t = case[side]
         n = len(t[0][1]) if t else 0
@@ -418,6 +440,8 @@ def rand_col(rng, pool, n):
     return [rng.choice(sub) for _ in range(n)]
 
 def rand_case(rng, stream, kind=None):
+    if stream == 'rand' and kind is None and rng.random() < 0.08:
+        return self_case(rng, 'rand')
     nan = stream == 'nan'
     nx = rng.choice([0, 1, 2, 3, 3, 4, 5, 6]); ny = rng.choice([0, 1, 2, 3, 3, 4, 5, 6])
     nk = rng.choice([0, 1, 1, 1, 2, 2, 3])
@@ -492,6 +516,13 @@ def rand_case(rng, stream, kind=None):
     # native sorted() inside sort() and cmp() disagree and join loses the match (open finding reported in coverage/C02.md; needs a fix in _sort.sort)
     huge = any(c is not None and c[0] == 'i' and abs(c[1]) >= 2**53 for t in (x, y) for _, col in t for c in col)
     if rng.random() < 0.1 and not huge: case['npfloat'] = True
+    # the two operands share the list object of a key column (same content, same length)
+    if nk and nx == ny and nx and rng.random() < 0.25 and not case.get('ydict'):
+        kname = knames[0]
+        xcol = [c for n_, c in x if n_ == kname]
+        if xcol and any(n_ == kname for n_, _ in y):
+            y[:] = [[n_, list(xcol[0]) if n_ == kname else c] for n_, c in y]
+            case['sharecols'] = [kname]
     if rng.random() < 0.3: rename_columns(rng, case)
     return case
 
@@ -518,6 +549,7 @@ def rename_columns(rng, case):
         v = case[sp]
         if v is None: continue
         case[sp] = [v[0], [ren_item(i) for i in v[1]]] if v[0] in ('list', 'tuple') else ren_item(v)
+    if case.get('sharecols'): case['sharecols'] = [m.get(n, n) for n in case['sharecols']]
     case['renamed'] = True
 
 def large_case(rng):
@@ -587,6 +619,56 @@ def m2m_shared_case(rng):
             'lcols': keys[0] if nk == 1 and rng.random() < 0.5 else ['list', keys], 'rcols': rng.choice([None, ['list', keys]]),
             'mode': rng.choice(['r', 'r', '1', '1', 'right', 'coalesce', 'coalesce', 'swap', 'swap', 'l', '0', 'none'])}
 
+def self_case(rng, stream='self'):
+    """the SAME table object on both sides (x.join(x, lcols, rcols), x.xor(x, ...), x * x, x / x): id / boss style columns drawn from one
+    pool so that rows match other rows; lcols == rcols and lcols != rcols, lists in different orders, a computed key, natural join"""
+    n = rng.choice([0, 1, 2, 3, 4, 5, 6])
+    pool = rng.choice(['int', 'num', 'mixed', 'none', 'str', 'nanmixed', 'big'])
+    sub = rng.sample(POOLS[pool], min(len(POOLS[pool]), rng.choice([2, 3, 4])))
+    x = [[k, [rng.choice(sub) for _ in range(n)]] for k in ['a', 'b', 'c'][:rng.choice([2, 2, 3])]]
+    if rng.random() < 0.7: x.append(['v', [['i', 10 + i] for i in range(n)]])
+    kind = rng.choice(['join', 'join', 'xor', 'xor', 'both'])
+    if kind == 'both': x.append(['id', [['i', 100 + i] for i in range(n)]])
+    rng.shuffle(x)
+    keys = [k for k, _ in x if k in ('a', 'b', 'c')]
+    case = {'kind': kind, 'stream': stream, 'selfjoin': True, 'x': x, 'via': 'method', 'lcols': None, 'rcols': None}
+    r = rng.random()
+    if r < 0.15:
+        pass                                                                  # natural: every column is a key
+    elif r < 0.35:
+        case['lcols'] = ['col', keys[0]]; case['rcols'] = rng.choice([None, ['col', keys[0]]])       # lcols == rcols
+    elif r < 0.65:
+        case['lcols'] = ['col', keys[1]]; case['rcols'] = ['col', keys[0]]                             # boss joined with id
+    elif r < 0.85:
+        l = rng.sample(keys, 2); rr = rng.choice([l[::-1], [l[1], l[0]], rng.sample(keys, 2)])
+        sp = rng.choice(['list', 'tuple'])
+        case['lcols'] = [sp, [['col', k] for k in l]]; case['rcols'] = ['list', [['col', k] for k in rr]]
+    else:
+        f = rng.choice(['id', 'isnone', 'const'])
+        case['lcols'] = ['fun', f, [keys[1]]]; case['rcols'] = ['col', keys[0]]
+        if rng.random() < 0.5: case['lcols'], case['rcols'] = case['rcols'], case['lcols']
+    if kind == 'join': case['mode'] = rng.choice(list(JMODES))
+    elif kind == 'xor': case['mode'] = rng.choice(list(XMODES))
+    if kind in ('join', 'xor') and case['lcols'] is None and rng.random() < 0.6:
+        case['via'] = 'op'; case['mode'] = 'none' if kind == 'join' else 'default'
+    case['y'] = case['x']
+    if rng.random() < 0.25: rename_columns(rng, case)
+    case['y'] = json.loads(json.dumps(case['x']))       # kept equal to x: the model and the oracle see the same table twice
+    return case
+
+def exhaustive_self():
+    """every table of <= 2 rows with two columns over {None, 1, 1.0, 'a'}, joined / xor-ed with ITSELF on b vs a, on a, and naturally"""
+    pool = [None, ['i', 1], ['f', 2], ['s', 'a']]
+    out = []
+    for n in range(3):
+        for a in itertools.product(pool, repeat=n):
+            for b in itertools.product(pool, repeat=n):
+                x = [['a', list(a)], ['b', list(b)], ['v', [['i', 5 + i] for i in range(n)]]]
+                for lc, rc in ((['col', 'b'], ['col', 'a']), (['col', 'a'], None), (None, None)):
+                    for kind, mode in (('join', 'none'), ('xor', 'default')):
+                        out.append({'kind': kind, 'stream': 'exhself', 'selfjoin': True, 'x': x, 'y': x, 'lcols': lc, 'rcols': rc, 'mode': mode, 'via': 'method'})
+    return out
+
 def malformed(rng):
     c = rand_case(rng, 'bad', rng.choice(['join', 'xor']))
     r = rng.random()
@@ -621,7 +703,7 @@ def exhaustive_small():
 def gen_cases(rng, tier):
     q = tier == 'quick'
     cases = []
-    for _ in range(1900 if q else 30000):
+    for _ in range(1650 if q else 30000):
         cases.append(rand_case(rng, 'rand'))
     for _ in range(60 if q else 400):
         cases.append(rand_case(rng, 'nan'))
@@ -633,8 +715,12 @@ def gen_cases(rng, tier):
         cases.append(large_case(rng))
     for _ in range(120 if q else 1500):
         cases.append(malformed(rng))
+    for _ in range(250 if q else 2500):
+        cases.append(self_case(rng))
     ex = exhaustive_small()
     if q:
-        ex = rng.sample(ex, 500)
+        ex = rng.sample(ex, 400)
     cases.extend(ex)
+    exs = exhaustive_self()
+    cases.extend(rng.sample(exs, 300) if q else exs)
     return cases
